@@ -9,6 +9,9 @@ type ReplayFn = fn(&Ctx, &str, &serde_json::Value);
 fn table() -> Vec<(&'static str, &'static str, RunFn, ReplayFn)> {
     vec![
         ("C04", "exploration", props::c04::run, props::c04::replay),
+        ("C09", "exploration", props::c09::run, props::c09::replay),
+        ("C18", "exploration", props::c18::run, props::c18::replay),
+        ("C19", "exploration", props::c19::run, props::c19::replay),
     ]
 }
 
